@@ -17,7 +17,7 @@ from ..world import PtyWorld, WouldBlock
 
 sys.setrecursionlimit(100000)
 
-from ..world import FdWorld, SockWorld
+from ..world import FdWorld, SockWorld, GatedPopenWorld
 
 TRANSPORTS = {
     'pty': dict(
@@ -51,6 +51,20 @@ TRANSPORTS = {
         world=None,     # needs the user's timeout of the initial state: see make_world
         variants=1,
     ),
+    'popen': dict(
+        module='PopenRead',
+        consts=lambda q: [('MaxUnits', '= %d' % (3 if q else 4)), ('MaxWrite', '= 2'), ('Sizes', '= {1, 2}' if q else '= {1, 2, 3}'),
+                          ('MaxCalls', '= 3'), ('ThreadChunk', '= 3' if q else '= 4')],
+        invs=['Accounted', 'EofOnlyWhenDrained', 'AtMostSize'],
+        kinds={'tread': {'ThreadRead'}, 'tput': {'ThreadPut'}, 'qget': {'Drain'}},
+        inter=lambda st, mu: (st['written'] - st['plo'], st['tpc'], st['tbuf'], tuple(st['queue']), st['carry'], st['reachedEof'],
+                              st['peerOpen'], mu - st['written']),
+        world=lambda wd, k: GatedPopenWorld(wd),
+        variants=1,
+        reader={'Drain'},
+        silent={'Drain', 'Ret'},
+        skip={'Ret'},
+    ),
 }
 
 
@@ -77,7 +91,7 @@ def projection(st, maxunits):
             maxunits - st['written'])
 
 
-def schedules_from_graph(g, maxunits, reader_names, inter, include_blocked=False):
+def schedules_from_graph(g, maxunits, reader_names, inter, include_blocked=False, skip=()):
     """For every distinct inter-call state (by projection): a shortest prefix from the initial
     state, then every path through one more call until it returns (or blocks); reader actions are
     abstracted to a marker ('R',), peer actions keep their label.  Returns the distinct schedules."""
@@ -100,6 +114,8 @@ def schedules_from_graph(g, maxunits, reader_names, inter, include_blocked=False
             return ('C', stategraph.parse_action(lab)[1])
         if name in reader_names:
             return ('R',)
+        if name in skip:
+            return None          # a step of the model without a system call
         return ('P', lab)
     seen = set()
     out = []
@@ -111,7 +127,7 @@ def schedules_from_graph(g, maxunits, reader_names, inter, include_blocked=False
             m, lab = parent[m]
             prefix.append(lab)
         prefix.reverse()
-        pre = [item(l) for l in prefix]
+        pre = [x for x in (item(l) for l in prefix) if x is not None]
         root = m            # the initial state this prefix starts from
         stack = []
 
@@ -142,9 +158,12 @@ def schedules_from_graph(g, maxunits, reader_names, inter, include_blocked=False
                         out.append((root, pre + list(acc)))
                 return
             for l, d in outs:
-                acc.append(item(l))
+                it = item(l)
+                if it is not None:
+                    acc.append(it)
                 dfs(d, acc)
-                acc.pop()
+                if it is not None:
+                    acc.pop()
         for lab, d in g.edges[n]:
             if lab.startswith('CallStart'):
                 dfs(d, [item(lab)])
@@ -162,7 +181,8 @@ def replay_one(args):
             w.skip_to_call()
             if w.pos >= len(w.schedule):
                 break
-            size, tmo = w.schedule[w.pos][1]
+            cargs = w.schedule[w.pos][1]
+            size, tmo = (cargs[0], cargs[1]) if len(cargs) > 1 else (cargs[0], 0)
             w.pos += 1
             t = None if tmo == -1 else float(tmo)
             t0 = w.clock.now
@@ -194,6 +214,7 @@ def replay_one(args):
                 break
             w.log(e='ret', kind=res[0], n=len(data), elapsed=int(w.clock.now - t0))
         out['written'] = w.written.decode('latin-1')
+        out['transport'] = transport
         out['events'] = w.events
         out['extra_steps'] = w.extra_steps
     except Exception:
@@ -216,7 +237,7 @@ def judge_contract(out):
                 bad.append(('C06:more-than-size', i))
             if not written.startswith(delivered):
                 bad.append(('C06:not-a-prefix-of-what-was-written', i))
-            if c['data'] == '':
+            if c['data'] == '' and out.get('transport') != 'popen':
                 bad.append(('C06:empty-data-read', i))
         elif c['kind'] == 'EOF':
             if len(delivered) < c['written_at_return'] or c['peer_open']:
@@ -242,14 +263,24 @@ def judge_contract(out):
 
 def make_matcher(g, transport):
     T = TRANSPORTS[transport]
-    keys = ('lo', 'flagEof', 'terminated', 'sockTimeout')
-    proj = lambda st: {k: st[k] for k in keys if k in st}
+    keys = ('lo', 'flagEof', 'terminated', 'sockTimeout', 'plo', 'qlen')
+
+    def proj(st):
+        d = {k: st[k] for k in keys if k in st}
+        if 'queue' in st:
+            d['qlen'] = len(st['queue'])
+        return d
     m = graphtrace.Matcher(g, T['kinds'], proj)
     m.obs_keys = keys
     m.chain_kinds = ('selectT', 'recv')
-    call_label = lambda ev: 'CallStart(%d,%d)' % (ev['size'], ev['tmo'])
-    ret_ok = lambda st, ev: (st['pc'] == 'idle' and st['ret']['kind'] == ev['kind'] and st['ret']['n'] == ev['n']
-                             and st['now'] - st['started'] == ev['elapsed'])
+    m.silent = T.get('silent', ())
+    if transport == 'popen':
+        call_label = lambda ev: 'CallStart(%d)' % ev['size']
+        ret_ok = lambda st, ev: st['pc'] == 'idle' and st['ret']['kind'] == ev['kind'] and st['ret']['n'] == ev['n']
+    else:
+        call_label = lambda ev: 'CallStart(%d,%d)' % (ev['size'], ev['tmo'])
+        ret_ok = lambda st, ev: (st['pc'] == 'idle' and st['ret']['kind'] == ev['kind'] and st['ret']['n'] == ev['n']
+                                 and st['now'] - st['started'] == ev['elapsed'])
     return m, call_label, ret_ok
 
 
@@ -267,8 +298,8 @@ def run_transport(ctx, pool, transport, include_blocked=False):
         r2 = tlc.run(T['module'], cfg2, ctx.work, workers=4, timeout=300, outname='pty_unfixed.out')
         if r2['violated'] != 'EofOnlyWhenDrained':
             raise tlc.TLCError('PtyRead with Fixed=FALSE should violate EofOnlyWhenDrained, got %s' % r2['violated'])
-    reader = set().union(*T['kinds'].values())
-    scheds, nstates, npaths = schedules_from_graph(g, maxunits, reader, T['inter'], include_blocked)
+    reader = T.get('reader') or set().union(*T['kinds'].values())
+    scheds, nstates, npaths = schedules_from_graph(g, maxunits, reader, T['inter'], include_blocked, skip=T.get('skip', ()))
     rng = random.Random(ctx.seed * 31 + 5)
     cap = (3000 if quick else 60000) // T['variants']
     if len(scheds) > cap:
@@ -344,7 +375,7 @@ def run(ctx):
     print('[%s] transports - tier %s seed %d' % (ctx.pid, ctx.tier, ctx.seed), flush=True)
     results = {}
     with Pool(14) as pool:
-        for tr in ('pty', 'fd', 'socket'):
+        for tr in ('pty', 'fd', 'socket', 'popen'):
             results[tr] = run_transport(ctx, pool, tr)
     res, g, stats, jobs, outs = results['pty']
     ctx.note('binding self-test: ' + self_test(ctx, g, jobs, outs))
@@ -366,7 +397,7 @@ def run(ctx):
         'known_findings_hit': nknown,
     }, assumptions=['Linux pty / pipe / socket semantics (readable on hang-up, EIO or empty read at the end, short reads) are observed on the real kernel',
                     'peer actions are placed between system calls; races inside a single system call are the kernel\'s',
-                    'PopenSpawn (reader thread + queue) is covered by its own model (PopenRead)'],
+                    'PopenSpawn: the reader thread is gated (its os.read and queue.put wait for the schedule), the child is /bin/cat'],
         wall_s=ctx.wall(), violations=nviol)
     return status
 
